@@ -20,11 +20,22 @@ type MRow struct {
 }
 
 type MOp struct {
-	Op    string      `json:"op"`
-	Col   string      `json:"col"`
-	Val   interface{} `json:"val"`
-	Mut   string      `json:"mut"`
-	Shape string      `json:"shape"`
+	Op       string      `json:"op"`
+	Col      string      `json:"col"`
+	Val      interface{} `json:"val"`
+	MutRaw   interface{} `json:"mut"`   // a string, or a pair for "mutate2"
+	ShapeRaw interface{} `json:"shape"` // likewise
+	Mut      string      `json:"-"`
+	Shape    string      `json:"-"`
+}
+
+func (o *MOp) fix() {
+	if s, ok := o.MutRaw.(string); ok {
+		o.Mut = s
+	}
+	if s, ok := o.ShapeRaw.(string); ok {
+		o.Shape = s
+	}
 }
 
 type MCase struct {
@@ -95,6 +106,7 @@ func (e *Env) mrowFromAbs(g map[string]string, row map[string]interface{}, fill 
 }
 
 func (e *Env) mop(g map[string]string, op MOp, u string) (ovsdb.Operation, bool, error) {
+	op.fix()
 	t := e.Ctx.Abs.Tables["D"]
 	where := []ovsdb.Condition{ovsdb.NewCondition("_uuid", ovsdb.ConditionEqual, ovsdb.UUID{GoUUID: e.Ctx.Tok.ToReal(u)})}
 	switch op.Op {
@@ -118,6 +130,32 @@ func (e *Env) mop(g map[string]string, op MOp, u string) (ovsdb.Operation, bool,
 		cn := g[op.Col]
 		orow, err := e.Ctx.AbsToOvsRow("D", map[string]interface{}{cn: typed(t.Cols[cn], normVal(op), 1)})
 		return ovsdb.Operation{Op: "update", Table: "D", Where: where, Row: orow}, true, err
+	case "mutate2":
+		// one mutate operation with two mutations of the same column
+		cn := g[op.Col]
+		col := t.Cols[cn]
+		vals := normList(op.Val)
+		muts, _ := op.MutRaw.([]interface{})
+		shapes, _ := op.ShapeRaw.([]interface{})
+		var ms []ovsdb.Mutation
+		for i := 0; i < 2; i++ {
+			var v interface{}
+			var err error
+			if shapes[i].(string) == "keys" {
+				keys := []interface{}{}
+				for _, k := range normList(vals[i]) {
+					keys = append(keys, atomOf(col.Key.T, toInt(k)))
+				}
+				v, err = e.Ctx.Tok.ToOvs(col, interface{}(keys), "set")
+			} else {
+				v, err = e.Ctx.Tok.ToOvs(col, typed(col, interface{}(normList(vals[i])), 1), "col")
+			}
+			if err != nil {
+				return ovsdb.Operation{}, false, err
+			}
+			ms = append(ms, ovsdb.Mutation{Column: cn, Mutator: ovsdb.Mutator(muts[i].(string)), Value: v})
+		}
+		return ovsdb.Operation{Op: "mutate", Table: "D", Where: where, Mutations: ms}, true, nil
 	default:
 		cn := g[op.Col]
 		col := t.Cols[cn]
